@@ -1,4 +1,5 @@
 import RpcVerif.Lemmas.ConnProps
+import RpcVerif.Generated.ConnFacts
 /-
   C03 — connection loss fails calls fast; no caller hangs (client automaton K).
   "Bounded time" is not a theorem: it is rendered as quiescence (in every state where no thread
@@ -47,5 +48,13 @@ theorem C03_all_completed_after_end {cfg : Cfg} {tr : List Ev} {s : State} (h : 
   rcases (C03_no_hang h hq hg k c hc).1 with h1 | ⟨_, h2, _⟩
   · exact h1
   · exact absurd h2 hr
+
+/-- K's `sweep` event — enabled only when the decode queue is empty, setting `shutdown` and failing
+    the pending calls in one step — is recv's teardown as it stands in the source read on this run:
+    the decode queue is drained before the sweep's critical section, `shutdown` is set inside it
+    and nowhere else, and send refuses under the same lock. -/
+theorem C03_source_facts :
+    (Gen.connDrainsDecodeQueueBeforeSweep && Gen.connSetsShutdownInsideSweep && Gen.connSendRefusesUnderLock &&
+     Gen.connReadDropsFramesAfterShutdown) = true := by decide
 
 end RpcVerif.Props
